@@ -219,3 +219,23 @@ func VerifH_C06_close_running() {
 	e.h.closeReturned = how != 2
 	verifEpilogue(e, r, how != 2)
 }
+
+// C08: every stage output the plugin provider fabricates itself conforms to the schema its own
+// Lifecycle() declares (same scenarios as C12's ordered scenario).
+func VerifH_C08_plugin_outputs_conform() {
+	e := verifNewEnv(verifrt.Choice("hasCancel", 2) == 1)
+	e.h.checkShape = true
+	r := verifStart(e)
+	given := map[string]bool{}
+	n := verifrt.Choice("inputs", 4)
+	for a := 0; a < n; a++ {
+		verifAct(e, r, given, a)
+	}
+	if verifrt.Choice("stop", 2) == 1 {
+		verifAct(e, r, given, 3)
+	}
+	if verifrt.Choice("settle", 2) == 1 {
+		verifrt.Settle()
+	}
+	verifEpilogue(e, r, false)
+}
